@@ -33,7 +33,8 @@ ASSUMPTIONS = [
     "TorchDynamo/AOT/Inductor are opaque real components: the simulator controls the operations issued to them, resets them and injects exceptions around them, not their internal scheduling",
     "chains follow the documented constraints: unit_scale at most once, one format simulation at most, track_scales/compile last; unit_scale is not applied to the member that is already built from unit-scaled layers",
     "exceptions are injected at first-visit line events only (an exception at the re-visit of a `with` header would pre-empt __exit__, which only an asynchronous signal can do)",
-    "compile (Inductor) chains are compared with 2e-5 relative tolerance, all others bitwise",
+    "chains ending in compile (Inductor) or track_scales (whose wrappers are value-preserving only to float rounding: recorded finding D13 of property C18) are compared with 2e-5 relative tolerance, all others bitwise",
+    "search phases keep at most 8 compiled entries per code object between Dynamo resets (more is the recorded finding D16, probed deterministically in phase 'known')",
     "seeded search: a clean batch is evidence, not proof",
 ]
 RULE = (
@@ -54,14 +55,35 @@ MAX_MODULES = 5
 def phases(tier: str) -> List[Dict[str, Any]]:
     if tier == "quick":
         return [
-            {"name": "nofault", "runs": 224, "heavy": True, "timeout": 240, "wall": 110},
-            {"name": "faults", "runs": 224, "heavy": True, "timeout": 240, "wall": 110},
+            {"name": "nofault", "runs": 176, "heavy": True, "timeout": 240, "wall": 110},
+            {"name": "faults", "runs": 176, "heavy": True, "timeout": 240, "wall": 110},
+            {"name": "known", "runs": 2, "explicit": True, "timeout": 240, "wall": 60},
         ]
     return [
         {"name": "nofault", "runs": 3000, "heavy": True, "timeout": 400, "wall": 1500},
         {"name": "faults", "runs": 3000, "heavy": True, "timeout": 400, "wall": 1500},
         {"name": "compile", "runs": 64, "heavy": True, "timeout": 900, "wall": 900},
+        {"name": "known", "runs": 2, "explicit": True, "timeout": 240, "wall": 60},
     ]
+
+
+def explicit_plans(tier: str, phase: str) -> List[Dict[str, Any]]:
+    """Deterministic probe of the recorded finding D16: more than 8 live transformed modules of
+    one class, all called a second time."""
+    plans = []
+    for member, T in (("mlp", {"T": "unit_scale"}), ("resblock", {"T": "simulate_format", "fmt": "e5m2rn"})):
+        plans.append({"phase": "known", "member": member, "sizes": {"B": 2, "T": 3, "D": 4, "H": 8}, "gen_opts": {},
+                      "mseed": 3, "key": 5, "timeout": 300, "shrink_budget": 0,
+                      "ops": [{"op": "fleet", "n": 11, "T": [dict(T) for _ in range(11)], "second": 11}]})
+    return plans
+
+
+def neutralise(plan: Dict[str, Any], finding: Dict[str, Any]) -> Optional[Dict[str, Any]]:
+    if finding.get("id") == "D16":
+        c = copy.deepcopy(plan)
+        c["recompile_limit"] = 64  # counterfactual: TorchDynamo's per-code-object limit out of the way
+        return c
+    return None
 
 
 # ------------------------------------------------------------------------------------
@@ -118,7 +140,9 @@ def generate(seed: int, tier: str, phase: str) -> Dict[str, Any]:
         elif k == "drop":
             op.update(j=r.randrange(16))
         elif k == "fleet":
-            op.update(n=r.choice([9, 11]), T=[_gen_T(r, False) for _ in range(11)])
+            # second round limited to 6 members: more than 8 live modules of one class re-called
+            # after a reset is the recorded finding D16 (probed in phase "known")
+            op.update(n=r.choice([9, 11]), T=[_gen_T(r, False) for _ in range(11)], second=r.choice([0, 2]))
         elif k == "bad_call":
             op.update(j=r.randrange(16), kind=r.choice(["shape", "index", "dtype"]))
         elif k == "interrupt":
@@ -213,6 +237,13 @@ def execute(plan: Dict[str, Any]) -> Dict[str, Any]:
     def probe(name: str, k: int = 1) -> None:
         probes[name] = probes.get(name, 0) + k
 
+    from torch._dynamo.utils import counters
+    import torch._dynamo.config as dcfg
+
+    if plan.get("recompile_limit"):
+        dcfg.recompile_limit = plan["recompile_limit"]
+        if hasattr(dcfg, "cache_size_limit"):
+            dcfg.cache_size_limit = plan["recompile_limit"]
     prf = PRFRandint(plan["key"]).install()
     member = plan["member"]
     if member == "gen":
@@ -272,20 +303,28 @@ def execute(plan: Dict[str, Any]) -> Dict[str, Any]:
         ref, mode = reference_for(m)
         prf.take_log()
         wrapper = m.mod.__dict__.get("forward")
+        c0 = (counters["frames"]["total"], counters["frames"]["ok"])
         try:
             got = tw.run(m.mod, m.mod, tw.clone_inputs(inputs[k]), gseed, backward=bwd)
         except Exception as e:
             raise Violation("I5_applied_once_in_order", "call_raised",
                             f"{chain_key(m.chain)} on {member}: {type(e).__name__}: {str(e)[:400]} {where}")
+        c1 = (counters["frames"]["total"], counters["frames"]["ok"])
+        fell_back = (c1[0] - c0[0]) > (c1[1] - c0[1])  # a frame Dynamo gave up on (recompile limit)
+        if fell_back:
+            probe("dynamo_gave_up_on_a_frame")
         la = sorted(prf.take_log())
         if m.mod.__dict__.get("forward") is not wrapper:
             raise Violation("I6_fault_recovery", "forward_wrapper_replaced", where)
         want = tw.run(lambda *xs: ref.run(m.mod, xs), m.mod, tw.clone_inputs(inputs[k]), gseed, backward=bwd)
         lb = sorted(prf.take_log())
-        tol = 2e-5 if mode["compiled"] else None
+        # Inductor code generation and the tracking wrappers (recorded finding D13, property C18)
+        # are value-preserving only to float rounding; everything else is compared bit for bit
+        tol = 2e-5 if (mode["compiled"] or any(t_["T"] == "track_scales" for t_ in m.chain)) else None
         d = tw.diff(got, want, tol)
         if d:
-            raise Violation("I5_applied_once_in_order", "twin_mismatch",
+            raise Violation("I5_applied_once_in_order",
+                            "untransformed_after_recompile_limit" if fell_back else "twin_mismatch",
                             f"{chain_key(m.chain)} on {member}: {d} {where}")
         if la != lb and not mode["compiled"]:
             raise Violation("I5_applied_once_in_order", "random_requests_differ",
@@ -308,14 +347,19 @@ def execute(plan: Dict[str, Any]) -> Dict[str, Any]:
                 continue
             if tw.state_equal(o.mod, tw.state_snapshot(m.mod)) is not None:
                 continue
+            c2 = (counters["frames"]["total"], counters["frames"]["ok"])
             try:
                 other = tw.run(o.mod, o.mod, tw.clone_inputs(inputs[k]), gseed, backward=bwd)
             except Exception as e:
                 raise Violation("I5_applied_once_in_order", "call_raised",
                                 f"{chain_key(o.chain)}: {type(e).__name__}: {str(e)[:300]} {where}")
+            c3 = (counters["frames"]["total"], counters["frames"]["ok"])
             prf.take_log()
             o.called = True
             d = tw.diff(got, other, tol)
+            if d and (c3[0] - c2[0]) > (c3[1] - c2[1]):
+                raise Violation("I5_applied_once_in_order", "untransformed_after_recompile_limit",
+                                f"{chain_key(o.chain)} on {member}: {d} {where} (while comparing two modules with the same chain)")
             if d:
                 raise Violation("I4_order_independent", "permuted_chains_disagree",
                                 f"{chain_key(m.chain)} vs {chain_key(o.chain)}: {d} {where}")
@@ -357,13 +401,20 @@ def execute(plan: Dict[str, Any]) -> Dict[str, Any]:
                 tag = f"call:{chain_key(m.chain)}:{'bwd' if op['bwd'] else 'fwd'}"
             elif k == "fleet":
                 # many transformed copies of one module class in one process, each called once
+                fleet: List[Mod] = []
                 for jj in range(op["n"]):
                     T_ = op["T"][jj]
                     if not chain_legal([], T_, member):
                         continue
                     fm_ = Mod(tw.apply_transform_by_name(original, T_), [T_])
                     checked_call(fm_, jj % 3, True, 0, where + f" fleet member {jj}")
+                    fleet.append(fm_)
                     probe("fleet_members")
+                if op.get("second", 0):
+                    # the members stay alive and some of them are called once more
+                    for jj, fm_ in enumerate(fleet[: op["second"]]):
+                        checked_call(fm_, jj % 3, True, 0, where + f" fleet member {jj}, second round ({len(fleet)} live)")
+                    probe("fleet_second_rounds")
             elif k == "call_original":
                 got = tw.run(original, original, tw.clone_inputs(inputs[op["k"]]), 2)
                 want = tw.run(lambda *xs: plain_ref.run(original, xs), original, tw.clone_inputs(inputs[op["k"]]), 2)
